@@ -39,7 +39,7 @@ func TestCheck(t *testing.T) {
 		}
 	}()
 	ctx := context.Background()
-	n := int64(cfg.Pick(600, 1500))
+	n := int64(cfg.Pick(600, 4000))
 	rep.Cases(n, func(idx int64, rng *mon.Rand) {
 		if idx%10 == 9 {
 			keyedZeroCase(ctx, rep, rng.Sub("keyedzero"))
